@@ -39,6 +39,8 @@ LowMemoryRescaledHmmLikelihood::LowMemoryRescaledHmmLikelihood(
     throw Exception("LowMemoryRescaledHmmLikelihood: HmmTransitionMatrix and HmmEmissionProbabilities should point toward the same HmmStateAlphabet object.");
   if (!hiddenAlphabet_->worksWith(emissionProbabilities->hmmStateAlphabet()))
     throw Exception("LowMemoryRescaledHmmLikelihood: HmmTransitionMatrix and HmmEmissionProbabilities should point toward the same HmmStateAlphabet object.");
+  if (maxSize_ == 0)
+    throw Exception("LowMemoryRescaledHmmLikelihood: maxSize should be at least 1.");
   nbStates_ = hiddenAlphabet_->getNumberOfStates();
   nbSites_ = emissionProbabilities_->getNumberOfPositions();
 
@@ -206,10 +208,9 @@ void LowMemoryRescaledHmmLikelihood::computeForward_()
       else
         (*currentLikelihood)[j] = 0;
     }
-    lScales[i - offset] = log(scale);
-
-    if (i - offset == maxSize_ - 1)
+    if (i - offset == maxSize_)
     {
+      // The array of scales is full.
       // We make partial calculations and reset the arrays:
       double partialLogLik = 0;
       sort(lScales.begin(), lScales.end(), cmp);
@@ -220,6 +221,7 @@ void LowMemoryRescaledHmmLikelihood::computeForward_()
       logLik_ += partialLogLik;
       offset += maxSize_;
     }
+    lScales[i - offset] = log(scale);
   }
   sort(lScales.begin(), lScales.begin() + static_cast<ptrdiff_t>(nbSites_ - offset), cmp);
   double partialLogLik = 0;
